@@ -39,6 +39,9 @@
 (*  DevModuleMajorPasses    the four passes run module by module, so a     *)
 (*      COMPONENTS OF across modules copies members in whatever state the  *)
 (*      other module is in (order dependent; C19's subject)                *)
+(*  DevCompileInPlace       compile_dict pre-processes the caller's        *)
+(*      dictionary itself (with it off: a private copy, the caller's       *)
+(*      dictionary never changes and histories cannot matter)              *)
 (*  DevDefaultsBeforeParameterization   parameterized types are            *)
 (*      instantiated after the default pass: the defaults of instantiated  *)
 (*      members are converted only by the *next* pre_process               *)
@@ -46,7 +49,7 @@
 EXTENDS Bits, TLC
 
 HistoryDevs == <<"DevEnumDefaultInPlace", "DevPformatSortsDicts", "DevDefaultsBeforeParameterization">>
-MechanismDevs == <<"DevEnumMarkerUnpack", "DevModuleMajorPasses">>
+MechanismDevs == <<"DevEnumMarkerUnpack", "DevModuleMajorPasses", "DevCompileInPlace">>
 AllDevs == {HistoryDevs[i] : i \in 1..Len(HistoryDevs)} \cup {MechanismDevs[i] : i \in 1..Len(MechanismDevs)}
 
 \* deliberately wrong clauses (model mutants, never part of a profile; spec/tests only):
@@ -378,6 +381,11 @@ Compile(M, ne, S) ==
              ELSE LET r3 == PreProcess(r2.m, ne, S)
                   IN IF r3.err # "" THEN [m |-> r3.m, err |-> r3.err, v |-> <<>>]
                      ELSE [m |-> r3.m, err |-> "", v |-> <<r1.m, r2.m, r3.m>>]
+
+\* one compile_dict call as the caller sees it: -> [m: the caller's dictionary afterwards, err, v]
+CompileDict(M, ne, S) ==
+  LET c == Compile(M, ne, S)
+  IN [m |-> IF "DevCompileInPlace" \in S THEN c.m ELSE M, err |-> c.err, v |-> c.v]
 
 \* the parse sub-command writes pformat(dict); the .py loader evaluates it:
 \* lists, tuples, bytes, None survive; dict keys come back sorted
